@@ -306,10 +306,24 @@ def _make_callable(name):
             "lambda v": lambda: (lambda v: ("lambda", v)),
             "functools.partial": lambda: functools.partial(_f_default, k=2),
             "object.__call__(self, *args)": lambda: _Star(), "stateful object": lambda: _Nth(),
-            "bound method": lambda: _Nth().__call__, "builtin type": lambda: str}[name]()
+            "bound method": lambda: _Nth().__call__, "builtin type": lambda: str,
+            "Call(obj, call=name)": lambda: lena.core.Call(_Named(), call="other"),
+            "Call(callable obj, call=name)": lambda: lena.core.Call(_NamedCallable(), call="other")}[name]()
 
 
-CALLABLES = ["def f(v)", "def f(*args)", "def f(*args, **kwargs)", "def f(v, k=1)", "lambda v",
+class _Named(object):
+    """Not callable itself; its method *other* is what Call(obj, call="other") calls."""
+
+    def other(self, value):
+        return ("other", value)
+
+
+class _NamedCallable(_Named):
+    def __call__(self, value):
+        return ("__call__", value)
+
+
+CALLABLES = ["Call(obj, call=name)", "Call(callable obj, call=name)", "def f(v)", "def f(*args)", "def f(*args, **kwargs)", "def f(v, k=1)", "lambda v",
              "functools.partial", "object.__call__(self, *args)", "stateful object", "bound method",
              "builtin type"]
 _BUF = [0]
@@ -357,6 +371,47 @@ def check_callables(res):
                                    "flow_repeats_objects": fname in ("one object three times",
                                                                      "equal small ints"),
                                    "raised": observed.startswith("raised")})
+    res.sample(case, 1)
+
+
+class _Reader(object):
+    """A re-iterable flow object with __iter__ only (no __len__, no __next__), like a file reader."""
+
+    def __init__(self, values):
+        self._values = values
+
+    def __iter__(self):
+        return iter(self._values)
+
+
+CONTAINERS = {"list": list, "tuple": tuple, "iterator": iter, "generator": lambda xs: (x for x in xs),
+              "iterable object": _Reader, "range-like": lambda xs: _Reader(tuple(xs))}
+CONTAINER_PIPES = [("inc",), ("Slice(-1)",), ("Slice(1,3)",), ("Count",), ("Reverse",), ("Sequence()",),
+                   ("Filter(even)", "Slice(-2,None)"), ("Sum",), ("Split([])",)]
+
+
+def check_containers(res):
+    """The flow may be any iterable: what comes out depends on its values only."""
+    for cname in sorted(CONTAINERS):
+        for specs in CONTAINER_PIPES:
+            for m in (0, 1, 3, 5):
+                for top in ("sequence", "source"):
+                    case = {"law": "containers", "container": cname, "els": list(specs), "m": m, "top": top}
+                    ref = cm.outcome(lambda: fold(specs, cm.make_flow("bare", m)))
+                    try:
+                        els = [cm.build(sp) for sp in specs]
+                        flow = CONTAINERS[cname](cm.make_flow("bare", m))
+                        if top == "sequence":
+                            got = cm.outcome(lambda: lena.core.Sequence(*els).run(flow))
+                        else:
+                            got = cm.outcome(lambda: lena.core.Source(flow, *els)())
+                    except Exception as e:
+                        got = ("exc", type(e).__name__ + " (at construction)", None)
+                    res.case(nontrivial=m >= 2, outcome=(cname, specs, m, top, got[1]))
+                    if not cm.same(got, ref):
+                        res.violation(case, cm.show(got), cm.show(ref),
+                                      {"law": "containers", "container": cname, "form": top,
+                                       "diff": cm.diff_kind(got, ref)})
     res.sample(case, 1)
 
 
@@ -587,6 +642,7 @@ def run_shard(p, tier):
                 case = check_compose(res, ("Sequence()",) * n, fs)
     elif p["kind"] == "callables":
         check_callables(res)
+        check_containers(res)
     elif p["kind"] == "illtyped":
         for bad, good, pos, place in _illtyped_cases():
             case = check_illtyped(res, bad, good, pos, place)
@@ -607,6 +663,10 @@ def replay(case):
     warnings.simplefilter("ignore")
     res = Result()
     law = case.get("law")
+    if law == "containers":
+        check_containers(res)
+        return [v for v in result_violations(res)
+                if all(v["case"].get(k) == case.get(k) for k in ("container", "els", "m", "top"))]
     if law == "callables":
         check_callables(res)
         return [v for v in result_violations(res)
